@@ -11,12 +11,12 @@ from checks._exec import run_exec, sample
 CLAUSES = ("Err:", "OutputCorrect", "OutputRestored")
 
 
-def hw_specs(tier, rng):
+def hw_specs(tier, rng, n=None):
     q = tier == "quick"
     acc = []
     for sp in families.accel_specs(stripped=False, names=["sigma", "extensor", "outerspace", "gamma"]):
         acc.append(dict(sp, hw=True, family=sp["family"] + "-metrics", plain_yaml=families.strip_sections(sp["yaml"], spacetime=False)))
-    return acc + hwfamily.hw_core() + sample(hwfamily.gen_hw, rng, 40 if q else 400)
+    return acc + hwfamily.hw_core() + sample(hwfamily.gen_hw, rng, n or (70 if q else 600))
 
 
 def run(tier, rep):
